@@ -346,8 +346,44 @@ func TestDCMIGrid(t *testing.T) {
 	ev.Label("dcmi-grid-complete")
 }
 
+// TestDCMIBounded: a BMC whose instance count and pages do not add up (it claims
+// instances and returns none, or keeps claiming more than it has handed out)
+// cannot keep the enumeration going: it ends after a bounded number of requests.
+func TestDCMIBounded(t *testing.T) {
+	c := hx.Creds{User: "admin", Password: []byte("pw"), Priv: 4, Suite: hx.Suites9()[int(ev.Seed+3)%9], Seed: uint64(ev.Seed) + 5}
+	w := hx.NewWorldFor(c, true)
+	sess, err := w.T.NewV2Session(context.Background(), c.Opts())
+	if err != nil {
+		t.Fatalf("harness: %v", err)
+	}
+	for _, claimed := range []int{1, 7, 8, 9, 200, 255} {
+		for _, perPage := range []int{0, 1, 3, 8} {
+			reqs := 0
+			w.BMC.Handlers[uint16(ref.NetFnGroup)<<8|ref.CmdDCMISensorInfo] = func(b *simbmc.BMC, rx *simbmc.Rx) (byte, []byte) {
+				reqs++
+				body := []byte{byte(claimed), byte(perPage)}
+				for i := 0; i < perPage; i++ {
+					body = append(body, byte(reqs), byte(i))
+				}
+				return 0, body
+			}
+			ctx, cancel := w.Ctx(4000)
+			dcmi.GetSensorInfo(ctx, sess)
+			cancel()
+			ev.Eval()
+			// three entities, two entity-ID families, at most 255 record IDs each
+			if reqs > 6*256 {
+				ev.Violation("TestDCMIBounded", map[string]any{"claimedInstances": claimed, "recordIDsPerResponse": perPage}, fmt.Sprintf("%d Get DCMI Sensor Info requests: the enumeration is not bounded", reqs))
+				t.Fatalf("claimed %d, %d per response: %d requests", claimed, perPage, reqs)
+			}
+			ev.NonTrivial(fmt.Sprintf("dcmi-bounded|%d|%d", claimed, perPage))
+		}
+	}
+	ev.Label("dcmi:bounded")
+}
+
 func TestCoverage(t *testing.T) {
-	need := []string{"cs:second-enumeration-on-the-connection", "cs:walk-bounded", "dcmi-grid-complete", "dcmi:record-ids-not-ascending", "dcmi:multi-page:mode0", "dcmi:multi-page:mode1", "dcmi:multi-page:mode2", "cs:exact-multiple-of-16", "cs:chunks=1", "cs:chunks=2", "cs:chunks=3", "cs:chunks=5",
+	need := []string{"cs:second-enumeration-on-the-connection", "cs:walk-bounded", "dcmi-grid-complete", "dcmi:bounded", "dcmi:record-ids-not-ascending", "dcmi:multi-page:mode0", "dcmi:multi-page:mode1", "dcmi:multi-page:mode2", "cs:exact-multiple-of-16", "cs:chunks=1", "cs:chunks=2", "cs:chunks=3", "cs:chunks=5",
 		"cs:malformed:last record cut short", "cs:malformed:first byte is not a record start"}
 	ev.RequireLabels(t, 1, need...)
 }
